@@ -159,6 +159,19 @@ def t_lazy_pipeline():
     return sum(got) + v + third           # 32 + 7 + 6 = 45
 
 
+def _shifted(base, fan):
+    for off in fan:
+        yield base + off
+
+
+def t_generator_fed_by_iterator():
+    fan = (10 * k for k in range(3))
+    total = 0
+    for v in _shifted(1, fan):
+        total += v
+    return total                          # 1 + 11 + 21 = 33
+
+
 def t_itertools():
     import itertools
     c = itertools.count(10)
@@ -201,7 +214,7 @@ def t_getters():
     return first((8, 9)) + wid(Box(1, 4))              # 8 + 3 = 11
 '''
 
-EXPECT = {'t_namedtuple': 27, 't_subclass': 34, 't_partial': 42, 't_reduce': 63, 't_generators': 44, 't_sets_dicts': 74, 't_classes': 34, 't_getters': 11, 't_property_objects': 67, 't_itertools': 53, 't_lazy_pipeline': 45}
+EXPECT = {'t_namedtuple': 27, 't_subclass': 34, 't_partial': 42, 't_reduce': 63, 't_generators': 44, 't_sets_dicts': 74, 't_classes': 34, 't_getters': 11, 't_property_objects': 67, 't_itertools': 53, 't_lazy_pipeline': 45, 't_generator_fed_by_iterator': 33}
 
 
 def main(db):
